@@ -43,6 +43,14 @@ def gen(tier, seed, shard, nshards):
     for c in _gc.iter_dag_cases((3, 4, 5), shard, nshards):
         if c["p"] < 5 or c["code3"] % 7 == 0:
             yield "embedded-dag", dict(c, P=9 + c["code3"] % 5)
+
+    sidx = 0
+    for pp in (6, 7, 8, 9, 10):
+        for name in sorted(gmat.named_shapes(pp)):
+            for rep in range(2):
+                if sidx % nshards == shard:
+                    yield "shape-dag", {"p": pp, "shape": name, "rep": rep}
+                sidx += 1
     for k in range(N[tier]["weighted"]):
         if k % nshards == shard:
             rng = util.rng_for("C08", seed, "w", k)
@@ -143,6 +151,14 @@ def _stats(rec, dag_or_none, want):
 
 def judge(family, case, rec):
     import sempler.utils as U
+    if family == "shape-dag":
+        out0 = gmat.named_shapes(case["p"])[case["shape"]]
+        if G.n_edges(out0) > 12:
+            return
+        out = gmat.relabel(out0, util.rng_for("shape", case["p"], case["shape"], case["rep"])) if case["rep"] else list(out0)
+        rec.count("shapes:" + case["shape"])
+        case = dict(case, masks=out)
+        family = "sampled-dag"
     if family == "embedded-dag":
         small = G.dag_from_code3(case["p"], case["code3"])
         if G.n_edges(small) < 2:
